@@ -222,7 +222,7 @@ R('r_serde', ['C20'], ['serde::Deserialize for HashMap', 'serde::Deserialize for
 VERUS = {
     # unit -> dict(props, widths, tier, desc)
     'ctrl': dict(props=['C01', 'C06', 'C13', 'C02', 'C10', 'C18'], tier='quick',
-                 desc='control-byte logic of the table core on extracted text over a Vec<u8> view of the control array, all table sizes, both widths: set_ctrl (mirror index, mirror invariant, frame), set_ctrl_hash, replace_ctrl_hash, is_bucket_full, record_item_insert_at (accounting F1), erase (EMPTY/DELETED, accounting, frame, no tombstone below one group, and the gap witness of the tombstone rule: EMPTY only when EMPTY bytes lie on both sides fewer than WIDTH apart), Tag, probe_seq, find_insert_slot_in_group / fix_insert_slot / find_insert_slot (result special, reachable for the probed hash, terminates), find_inner (sound, None-certificate, terminates for any eq), find_or_find_insert_slot_inner; every control-byte access in bounds; lemma layer over these contracts: F1 gives an EMPTY bucket (L4), insert into the found slot and erase both preserve the reachability invariant F2 of every other element (L3, L2), lookup answers Some exactly when a FULL bucket accepted by eq exists (L5)',
+                 desc='control-byte logic of the table core on extracted text over a Vec<u8> view of the control array, all table sizes, both widths: set_ctrl (mirror index, mirror invariant, frame), set_ctrl_hash, replace_ctrl_hash, is_bucket_full, record_item_insert_at (accounting F1), erase (EMPTY/DELETED, accounting, frame, no tombstone below one group, and the gap witness of the tombstone rule: EMPTY only when EMPTY bytes lie on both sides fewer than WIDTH apart), Tag, probe_seq, find_insert_slot_in_group / fix_insert_slot / find_insert_slot (result special, reachable for the probed hash, terminates), find_inner (sound, None-certificate, terminates for any eq), find_or_find_insert_slot_inner, prepare_rehash_in_place (FULL -> DELETED, everything else -> EMPTY, mirror rebuilt), prepare_insert_slot, clear_no_drop (valid empty table, full capacity, no tombstone); every control-byte access in bounds; lemma layer over these contracts: F1 gives an EMPTY bucket (L4), insert into the found slot and erase both preserve the reachability invariant F2 of every other element (L3, L2), lookup answers Some exactly when a FULL bucket accepted by eq exists (L5)',
                  paired={}),
     'guard': dict(props=['C04', 'C02'], tier='quick',
                   desc='the scope-guard closure of rehash_in_place, extracted from inside the real function (closure header -> function header with the captures as parameters): from any state a hasher call can leave behind (buckets EMPTY / FULL / DELETED-marked, items counting the last two) it leaves no marker, items == #FULL, growth_left == capacity - items, mirror invariant intact -- with and without drop glue; this is the clause the defect fixed by 7863c1b violated',
@@ -238,6 +238,9 @@ VERUS = {
                  paired={}),
     'rehash': dict(props=['C13', 'C01', 'C06', 'C03'], tier='quick',
                    desc='rehash_in_place (the path on which no callback unwinds; the scope guard closure is unit guard) and is_in_same_group on extracted text, together with the functions they call (prepare_rehash_in_place, find_insert_slot, set_ctrl, set_ctrl_hash, replace_ctrl_hash, ...), for every table size and both widths, element storage as a ghost sequence of element identities, the hasher an arbitrary function of the element: afterwards no tombstone is left, growth_left is the full slack, every FULL bucket carries the tag of its element and is reachable by a probe for its hash (every window probed before it is entirely FULL), and the multiset of elements is unchanged (none lost, none duplicated); both loops terminate (the inner one because every swap turns a DELETED byte FULL); every bucket access in bounds, every raw element copy/swap between two different buckets',
+                   paired={}),
+    'resize': dict(props=['C08', 'C13', 'C01', 'C06', 'C03'], tier='quick',
+                   desc='resize_inner on extracted text together with the functions it calls on the new table (prepare_insert_slot, find_insert_slot, set_ctrl_hash, ...), for every pair of table sizes and both widths, element storage as ghost sequences of element identities, the hasher an arbitrary function of the element, against the contracts of prepare_resize (a fresh entirely EMPTY table with the requested capacity, or an error) and of the FullBucketsIndices iterator (the indices of the FULL buckets, ascending, each once): on success the table has room for the request, no tombstone, growth_left = capacity - items, every FULL bucket carries the tag of its element and is reachable by a probe for its hash, and the multiset of elements is unchanged; on error nothing changed and the caller asked for fallible behaviour; find_insert_slot is only ever called on a table that still has an EMPTY bucket (counting argument from items <= capacity < buckets)',
                    paired={}),
     'iter': dict(props=['C09', 'C19', 'C02'], tier='quick',
                  desc='the raw iterator core on extracted text, control pointers and buckets kept as indices into an arbitrary table (any power-of-two size, both widths): RawIterRange::new (yields exactly the FULL buckets of its range), RawIterRange::next_impl in checked and unchecked mode (returns the smallest remaining FULL bucket, consumes exactly it, None only when nothing is left, every group load aligned and in bounds, terminates), RawIter::next (items counts exactly what is left; None iff items == 0), RawIterRange::split (the two halves partition the remaining buckets, both again well-formed)',
